@@ -76,6 +76,40 @@ class SqlSide:
       raise Unsupported('script has no final select')
     self.assumptions = list(self.ctx.assumptions)
 
+  def run_real(self, schema, rows):
+    return run_real(self.statements, schema, rows)
+
+
+class WorkflowSide:
+  """The plan of one or more predicates executed by the real concertina_lib with a
+  symbolic sql_runner (iterative recursion, @Ground)."""
+
+  def __init__(self, text, preds, D, strings, range_bound=3, compaction=True, want=None):
+    from . import plan
+    self.text = text
+    self.preds = list(preds)
+    self.want = want or self.preds[0]
+    self.executions = plan.compile_executions(text, self.preds)
+    self.runner = plan.SymRunner(D.store(), strings, range_bound, compaction)
+    self.result = plan.execute(self.executions, self.runner)
+    hdr, rel = self.result[self.want]
+    self.rel = rel
+    self.assumptions = list(self.runner.ctx.assumptions)
+    self.statements = [c['sql'] for c in self.runner.calls]
+    self.sql = '\n'.join(self.statements)
+
+  def run_real(self, schema, rows):
+    from . import plan
+    con = real.connect()
+    try:
+      dbm.load_sqlite(con, schema, rows)
+      runner = plan.RealRunner(con)
+      executions = plan.compile_executions(self.text, self.preds)
+      res = plan.execute(executions, runner)
+      return res[self.want]
+    finally:
+      con.close()
+
 
 def run_real(statements, schema, rows, pre=None):
   con = real.connect()
